@@ -30,6 +30,7 @@ pub fn run_enumeration(which: &str, id: &str, thorough: bool, seed: u64, out: &m
         "boot-matrix" => boot_matrix(out),
         "fallback-table" => fallback_table(out),
         "names" => names(seed, thorough, out),
+        "real-rng" => real_rng(out),
         "stateless-threads" => {
             stateless_threads(seed, thorough, out);
             stress_threads(seed, thorough, out);
@@ -612,4 +613,52 @@ fn miri_threads(seed: u64, out: &mut EnumOut) {
     out.evaluations += total;
     *out.probes.entry("miri-seeds-executed").or_insert(0) += total;
     out.summary.push(json!({"enumeration": "stateless-threads under Miri (3 preemptively scheduled threads, data-race detection, default backend)", "seeds": total, "seed_range_start": lo}));
+}
+
+/// C06 supplementary (not simulation): the real random sources behind DefaultResolver and
+/// RingResolver are never reached by the simulated runs (the RNG seam replaces them), so here they
+/// are exercised directly: draws are distinct, and two sessions built with the stock resolvers
+/// put different ephemerals on the wire.
+fn real_rng(out: &mut EnumOut) {
+    use snow::resolvers::{DefaultResolver, RingResolver};
+    let mut n = 0u64;
+    for (label, r) in [("default", Box::new(DefaultResolver) as Box<dyn CryptoResolver>), ("ring", Box::new(RingResolver) as Box<dyn CryptoResolver>)] {
+        let mut seen = std::collections::BTreeSet::new();
+        match r.resolve_rng() {
+            None => out.viol.push((Violation { prop: "C06".into(), clause: "no-random-source".into(), site: label.into(), detail: String::new(), op_index: 0 }, None)),
+            Some(mut rng) => {
+                for _ in 0..64 {
+                    let mut b = [0u8; 32];
+                    rng.fill_bytes(&mut b);
+                    n += 1;
+                    if !seen.insert(b) || b == [0u8; 32] {
+                        out.viol.push((Violation { prop: "C06".into(), clause: "random-source-repeats".into(), site: label.into(), detail: "two 32-byte draws of the stock random source are equal (or zero)".into(), op_index: 0 }, None));
+                        break;
+                    }
+                }
+            },
+        }
+    }
+    for name in ["Noise_NN_25519_ChaChaPoly_SHA256", "Noise_NN_P256_AESGCM_SHA512"] {
+        let mut firsts = std::collections::BTreeSet::new();
+        for k in 0..4 {
+            let b = if k % 2 == 0 {
+                snow::Builder::with_resolver(name.parse().unwrap(), Box::new(snow::resolvers::DefaultResolver))
+            } else {
+                snow::Builder::with_resolver(name.parse().unwrap(), Box::new(FallbackResolver::new(Box::new(snow::resolvers::RingResolver), Box::new(snow::resolvers::DefaultResolver))))
+            };
+            if let Ok(mut hs) = b.build_initiator() {
+                let mut m = vec![0u8; 200];
+                if let Ok(l) = hs.write_message(&[], &mut m) {
+                    n += 1;
+                    if !firsts.insert(m[..l].to_vec()) {
+                        out.viol.push((Violation { prop: "C06".into(), clause: "stock-resolver-ephemeral-repeats".into(), site: name.into(), detail: "two sessions built with the stock resolvers sent the same ephemeral".into(), op_index: 0 }, None));
+                    }
+                }
+            }
+        }
+    }
+    out.evaluations += n;
+    out.distinct += 2;
+    out.summary.push(json!({"enumeration": "stock random sources (supplementary, real OS randomness, not simulation)", "draws_and_sessions": n}));
 }
